@@ -651,6 +651,7 @@ pub fn random_cli_scenario(rng: &mut StdRng, i: usize, thorough: bool) -> CliSce
                 flags.push(f);
             }
         }
+        flags.shuffle(rng);
         let tcs: Vec<String> = vec!["ab 12".into(), "ab 123".into(), "\u{e9}x\u{1F4A9}\u{1F4A9}".into(), "(ab)".into()];
         let channel = ["args", "stdin", "file", "filestdin"][(bits as usize >> 3) % 4];
         return CliScenario {
@@ -665,18 +666,13 @@ pub fn random_cli_scenario(rng: &mut StdRng, i: usize, thorough: bool) -> CliSce
     }
     if i < nf {
         flags.push(CLI_FLAGS[i]);
-    } else if i < nf + nf * (nf - 1) / 2 {
-        let mut k = i - nf;
-        'outer: for a in 0..nf {
-            for b in a + 1..nf {
-                if k == 0 {
-                    flags.push(CLI_FLAGS[a]);
-                    flags.push(CLI_FLAGS[b]);
-                    break 'outer;
-                }
-                k -= 1;
-            }
-        }
+    } else if i < nf + nf * (nf - 1) {
+        // every ORDERED pair: the command line may give the flags in any order
+        let k = i - nf;
+        let (a, b0) = (k / (nf - 1), k % (nf - 1));
+        let b = if b0 >= a { b0 + 1 } else { b0 };
+        flags.push(CLI_FLAGS[a]);
+        flags.push(CLI_FLAGS[b]);
     } else {
         let bits: u32 = rng.gen();
         for (k, f) in CLI_FLAGS.iter().enumerate() {
@@ -684,6 +680,7 @@ pub fn random_cli_scenario(rng: &mut StdRng, i: usize, thorough: bool) -> CliSce
                 flags.push(f);
             }
         }
+        flags.shuffle(rng);
     }
     // keep usage errors rare
     if flags.contains(&"with-surrogates") && !flags.contains(&"escape") && rng.gen_bool(0.85) {
